@@ -27,7 +27,7 @@ TEMPLATE_KEYS = ["P", "Q", "R"]
 # keys whose values are never templated by the generators: an Option on one of them fails only when absent
 SAFE_KEYS = ["C", "D", "K", "M", "S.Y", "T.Z", "T.X"]
 EXC_CLASSES = ["ValueError", "TypeError", "KeyError", "RuntimeError", "ZeroDivisionError", "CustomError",
-               "NotImplementedError", "AttributeError", "OSError", "AssertionError", "IndexError"]
+               "NotImplementedError", "AttributeError", "OSError", "AssertionError", "IndexError", "SubTypeError", "SubKeyError"]
 
 
 @dataclass
